@@ -699,6 +699,12 @@ impl Callbacks for Exporter {
                 ("span", span_json(tcx, tcx.def_span(def_id))),
                 ("ret_ty", s(ty_str(body.local_decls[mir::RETURN_PLACE].ty))),
             ];
+            {
+                // generic parameter names in substitution order (parents first): lets the analysis bind const generics
+                let g = tcx.generics_of(def_id);
+                let names: Vec<J> = (0..g.count()).map(|i| s(g.param_at(i, tcx).name.to_string())).collect();
+                v.push(("generics", J::Arr(names)));
+            }
             if matches!(tcx.def_kind(def_id), DefKind::Fn | DefKind::AssocFn) {
                 v.push(("vis", s(format!("{:?}", tcx.visibility(def_id)))));
             }
